@@ -74,8 +74,20 @@ def item(c):
     op = c['op']
     r, k, bits = c['r'], c['c'], c['bits']
     mb = c.get('max_bits', 64)
-    A = mat_in('A', r, k, bits, mb)
-    decA = lambda ins: dec(ins['A'], r, k, min(bits, mb))
+    if c.get('ctor') == 'partial':
+        # a Matrix created empty, of which only the cells with even i+j are assigned afterwards (a diagonal / checkerboard):
+        # the cells never assigned read 0
+        w_ = I(r * k * bits, 'A')
+        A = M.Matrix(r, k, bits, max_bits=mb)
+        for i_ in range(r):
+            for j_ in range(k):
+                if (i_ + j_) % 2 == 0:
+                    pos_ = (r - 1 - i_) * k + (k - 1 - j_)
+                    A[i_, j_] = w_[pos_ * bits:(pos_ + 1) * bits]
+        decA = lambda ins: [[v if (i + j) % 2 == 0 else 0 for j, v in enumerate(row)] for i, row in enumerate(dec(ins['A'], r, k, min(bits, mb)))]
+    else:
+        A = mat_in('A', r, k, bits, mb)
+        decA = lambda ins: dec(ins['A'], r, k, min(bits, mb))
     two = op in ('add', 'sub', 'mul', 'matmul', 'dot', 'hstack', 'vstack', 'concat0', 'concat1', 'setitem', 'put_matrix')
     if two:
         r2, k2, b2 = c.get('r2', r), c.get('c2', k), c.get('bits2', bits)
@@ -405,6 +417,13 @@ def cases(tier, seed):
             out.append({'op': 'mul_scalar', 'r': r, 'c': k, 'bits': 3, 'sbits': sb})
         for op in ('transpose', 'reversed', 'copy', 'to_wv', 'wv_to_list'):
             out.append({'op': op, 'r': r, 'c': k, 'bits': 3})
+            out.append({'op': op, 'r': r, 'c': k, 'bits': 3, 'ctor': 'partial'})
+        for op in ('add', 'mul', 'hstack', 'vstack'):
+            out.append({'op': op, 'r': r, 'c': k, 'bits': 2, 'bits2': 2, 'ctor': 'partial'})
+        if r == k:
+            out.append({'op': 'pow', 'r': r, 'c': k, 'bits': 2, 'p': 1, 'ctor': 'partial'})
+            if r <= 2:
+                out.append({'op': 'pow', 'r': r, 'c': k, 'bits': 2, 'p': 2, 'ctor': 'partial'})
         for op in ('sum', 'min', 'max', 'argmax'):
             for axis in (None, 0, 1):
                 out.append({'op': op, 'r': r, 'c': k, 'bits': 3, 'axis': axis})
